@@ -513,6 +513,99 @@ fn run_case(case: &Case, sched_bytes: &[u8], ctx: &mut Ctx, global_id: Option<u3
     Ok(())
 }
 
+
+/// Bounded-exhaustive: every order of creating, dropping and forgetting up to three guards (each on
+/// its own recorder), with an emission after every step and the usual epilogue.
+fn exhaustive(pr: &PropRun) -> crate::engine::runner::LaneReport {
+    use crate::engine::runner::{LaneReport, Violation};
+    let start = std::time::Instant::now();
+    let mut rep = LaneReport::named("exhaustive-guard-orders-le3");
+    rep.exhaustive = true;
+    // enumerate sequences of moves: 0 = create next guard, 1+i = drop guard i, 10+i = forget guard i
+    let mut seqs: Vec<Vec<u8>> = vec![];
+    fn go(next: usize, alive: &Vec<usize>, cur: &mut Vec<u8>, out: &mut Vec<Vec<u8>>) {
+        if !cur.is_empty() {
+            out.push(cur.clone());
+        }
+        if cur.len() >= 6 {
+            return;
+        }
+        if next < 3 {
+            let mut a = alive.clone();
+            a.push(next);
+            cur.push(0);
+            go(next + 1, &a, cur, out);
+            cur.pop();
+        }
+        for (pos, g) in alive.iter().enumerate() {
+            for forget in [false, true] {
+                let mut a = alive.clone();
+                a.remove(pos);
+                cur.push(if forget { 10 + *g as u8 } else { 1 + *g as u8 });
+                go(next, &a, cur, out);
+                cur.pop();
+            }
+        }
+    }
+    go(0, &vec![], &mut vec![], &mut seqs);
+    for (k, seq) in seqs.iter().enumerate() {
+        let mut nodes = vec![];
+        let mut alive: Vec<usize> = vec![];
+        let mut next = 0usize;
+        let mut clean = true;
+        for m in seq {
+            match *m {
+                0 => {
+                    nodes.push(Node::Guard { rec: next, slot: next });
+                    alive.push(next);
+                    next += 1;
+                }
+                x if x >= 10 => {
+                    let g = (x - 10) as usize;
+                    alive.retain(|a| *a != g);
+                    nodes.push(Node::ForgetGuard(g));
+                    clean = false;
+                }
+                x => {
+                    let g = (x - 1) as usize;
+                    if alive.last() != Some(&g) {
+                        clean = false;
+                    }
+                    alive.retain(|a| *a != g);
+                    nodes.push(Node::DropGuard(g));
+                }
+            }
+            nodes.push(Node::Emit(k % NFORMS, 0));
+        }
+        if !alive.is_empty() && alive.windows(2).any(|w| w[0] > w[1]) {
+            clean = false;
+        }
+        // leftovers are dropped in slot order by the epilogue, which is creation order = out of order when >= 2 remain
+        if alive.len() >= 2 {
+            clean = false;
+        }
+        let case = Case { clean, threads: vec![nodes] };
+        let mut ctx = Ctx::default();
+        ctx.fingerprint = Some(k as u64);
+        if k % 97 == 5 {
+            ctx.desc = Some(format!("{:?}", case));
+        }
+        let r = run_case(&case, &[], &mut ctx, None, None);
+        rep.account(ctx);
+        if let Err(f) = r {
+            if pr.cfg.is_known(&f.sig) {
+                rep.known_hits.entry(f.sig.clone()).or_insert((0, vec![], vec![], format!("{:?}", case))).0 += 1;
+            } else {
+                rep.violations.push(Violation { lane: "exhaustive-guard-orders-le3".into(), sig: f.sig, msg: f.msg, bytes: seq.clone(), sched: vec![], decoded: format!("{:?}", case) });
+                break;
+            }
+        }
+    }
+    rep.notes.push(format!("{} move sequences over <= 3 guards", seqs.len()));
+    rep.wall_s = start.elapsed().as_secs_f64();
+    rep
+}
+
 fn case_local(bytes: &[u8], sched_bytes: &[u8], ctx: &mut Ctx) -> Result<(), Fail> {
     let mut src = Source::new(bytes);
     let case = decode(&mut src);
@@ -588,6 +681,8 @@ pub fn run(cfg: &RunCfg, replay: Option<&str>) -> i32 {
     pr.push(r);
     let c = pr.cfg.clone();
     let r = run_lane(&c, "C01", &Lane { name: "programs", cases: c.cases(60_000, 3_000_000), max_len: 160, sched_len: 48, workers: 0, f: &case_local });
+    pr.push(r);
+    let r = exhaustive(&pr);
     pr.push(r);
     let r = crate::engine::child::run_children(&pr, "C01", "global-recorder-processes", pr.cfg.cases(12, 300), |_| "1500 generated programs with a global recorder double installed first".to_string());
     pr.push(r);
